@@ -45,10 +45,11 @@ import (
 // ---------------------------------------------------------------- fake broker (message level)
 
 type fault struct {
-	kind  string // ok | lostack | drop | kerr | other | deadline
+	kind  string // ok | lostack | drop | kerr | other | deadline | notopic | nopart
 	code  int16
 	delay time.Duration
 	gate  string // wait for this gate before deciding
+	msg   bool   // error response carries an error message (makeError wraps the code)
 }
 
 type tpKey struct {
@@ -66,7 +67,10 @@ type fakeRT struct {
 	gates     map[string]chan struct{}
 	reached   map[string]chan struct{} // closed when a call starts waiting on the gate
 	attempted map[string]bool
-	multi     int // produce requests that were not exactly one topic / one partition
+	multi     int // produce requests that were not exactly one topic / one partition, or whose acks / compression attribute
+	// differ from the Writer's configuration (options must be passed through unchanged)
+	wantAcks  int16
+	wantAttrs int16
 }
 
 func newFake() *fakeRT {
@@ -130,7 +134,13 @@ func (f *fakeRT) RoundTrip(ctx context.Context, addr net.Addr, req kafka.Request
 		for _, name := range r.TopicNames {
 			n, ok := f.nparts[name]
 			if !ok {
-				res.Topics = append(res.Topics, meta.ResponseTopic{Name: name, ErrorCode: 3})
+				code := 3 // UnknownTopicOrPartition; topics named nope<code> fail with that code
+				if strings.HasPrefix(name, "nope") {
+					if c, err := strconv.Atoi(name[4:]); err == nil {
+						code = c
+					}
+				}
+				res.Topics = append(res.Topics, meta.ResponseTopic{Name: name, ErrorCode: int16(code)})
 				continue
 			}
 			t := meta.ResponseTopic{Name: name}
@@ -155,6 +165,11 @@ func (f *fakeRT) produce(r *produce.Request) (kafka.Response, error) {
 	}
 	topic := r.Topics[0].Topic
 	part := int(r.Topics[0].Partitions[0].Partition)
+	if r.Acks != f.wantAcks || int16(r.Topics[0].Partitions[0].RecordSet.Attributes)&7 != f.wantAttrs {
+		f.mu.Lock()
+		f.multi++
+		f.mu.Unlock()
+	}
 	var keys []string
 	rr := r.Topics[0].Partitions[0].RecordSet.Records
 	for rr != nil {
@@ -205,6 +220,15 @@ func (f *fakeRT) produce(r *produce.Request) (kafka.Response, error) {
 		f.logs[tp] = append(f.logs[tp], keys...)
 		kafka.VerifWriterEmit("Br.Produce", topic, part, ks, "lost1")
 		return nil, transient(int(ft.code))
+	case "notopic", "nopart":
+		// applied, but the response lacks the topic / the partition entry: (*Client).Produce reports ErrNoTopic /
+		// ErrNoPartition, a non-retriable error — for the Writer an acknowledgement lost for good
+		f.logs[tp] = append(f.logs[tp], keys...)
+		kafka.VerifWriterEmit("Br.Produce", topic, part, ks, "lost1")
+		if ft.kind == "notopic" {
+			return &produce.Response{}, nil
+		}
+		return &produce.Response{Topics: []produce.ResponseTopic{{Topic: topic}}}, nil
 	case "drop":
 		kafka.VerifWriterEmit("Br.Produce", topic, part, ks, "lost0")
 		return nil, transient(int(ft.code))
@@ -216,7 +240,11 @@ func (f *fakeRT) produce(r *produce.Request) (kafka.Response, error) {
 		return nil, errors.New("fake: broken pipe dream")
 	case "kerr":
 		kafka.VerifWriterEmit("Br.Produce", topic, part, ks, "k"+strconv.Itoa(int(ft.code)))
-		return &produce.Response{Topics: []produce.ResponseTopic{{Topic: topic, Partitions: []produce.ResponsePartition{{Partition: int32(part), ErrorCode: ft.code}}}}}, nil
+		em := ""
+		if ft.msg {
+			em = "injected by the fake broker"
+		}
+		return &produce.Response{Topics: []produce.ResponseTopic{{Topic: topic, Partitions: []produce.ResponsePartition{{Partition: int32(part), ErrorCode: ft.code, ErrorMessage: em}}}}}, nil
 	}
 	panic("fake: bad fault " + ft.kind)
 }
@@ -269,8 +297,11 @@ type scenario struct {
 	sinkDelay  map[string]time.Duration // event key ("PW.NewBatch", "PW.Detach:timer", "Q.Get:batch", "B.TimerFire") -> stall inside that critical section
 }
 
-var temporaryCodes = []int16{2, 3, 5, 6, 7, 13, 19, 20, 56}
-var permanentCodes = []int16{1, 10, 17, 18, 29, 87}
+// Kafka error codes for produce responses, every class: all codes error.go's Temporary() lists; permanent ones
+// including the one negative code (-1 UNKNOWN_SERVER_ERROR), the neighbours of 0, codes the library has no name for
+// (9999) and the largest int16.
+var temporaryCodes = []int16{2, 3, 5, 6, 7, 13, 14, 15, 16, 19, 20, 41, 56, 70, 71, 72, 74, 75, 78, 80, 83, 84, 85, 86, 88, 89, 100, 103, 106}
+var permanentCodes = []int16{-1, 1, 4, 10, 17, 18, 29, 87, 119, 9999, 32767}
 
 type builder struct {
 	r      *rand.Rand
@@ -370,7 +401,7 @@ func (b *builder) random(idx int, thorough bool) *scenario {
 					topic = tname
 				}
 				if sc.wtopic == "" && r.Intn(90) == 0 {
-					topic = "nope" // unknown topic: the metadata lookup fails (code 3), nothing of the call is sent
+					topic = []string{"nope3", "nope-1", "nope9999", "nope5"}[r.Intn(4)] // the metadata lookup fails with that code, nothing of the call is sent
 				}
 				if r.Intn(80) == 0 { // topic conflict / missing topic
 					if sc.wtopic == "" {
@@ -412,11 +443,12 @@ func (b *builder) random(idx int, thorough bool) *scenario {
 					case x < 19:
 						ft.kind = "other"
 					default:
-						ft.kind = "deadline"
+						ft.kind = []string{"deadline", "notopic", "nopart"}[r.Intn(3)]
 					}
 					if r.Intn(4) == 0 {
 						ft.delay = time.Duration(r.Intn(4000)) * time.Microsecond
 					}
+					ft.msg = r.Intn(3) == 0
 					q = append(q, ft)
 				}
 				sc.faults[tpKey{t, p}] = q
@@ -557,6 +589,40 @@ func (b *builder) topicMix(i int) *scenario {
 	return sc
 }
 
+// codes: every error code of the pool answers exactly one produce attempt (sync calls of one message, BatchSize 1):
+// MaxAttempts 1 — the code is the call's outcome; MaxAttempts 2 — temporary codes are retried and then acknowledged.
+func (b *builder) codes(i int) *scenario {
+	pool := append(append([]int16{}, permanentCodes...), temporaryCodes...)
+	ma := 1 + i%2
+	sc := &scenario{name: "codes" + strconv.Itoa(i), bs: 1, bb: 1 << 20, ma: ma, async: i%4 >= 2, compl: true, wtopic: "t",
+		timeout: 2 * time.Millisecond, nparts: map[string]int{"t": 1}, faults: map[tpKey][]fault{}, closeAt: -1}
+	var calls []callSpec
+	var script []fault
+	for k, c := range pool {
+		if k%4 != i/4%4 && i < 16 {
+			continue
+		}
+		b.nextC++
+		calls = append(calls, callSpec{id: b.nextC, msgs: []msgSpec{b.mkMsg(45, "", 0, false)}})
+		script = append(script, fault{kind: "kerr", code: c, msg: k%3 == 0})
+		if ma == 2 && isTemporary(c) {
+			script = append(script, fault{kind: "ok"})
+		}
+	}
+	sc.callers = [][]callSpec{calls}
+	sc.faults[tpKey{"t", 0}] = script
+	return sc
+}
+
+func isTemporary(c int16) bool {
+	for _, t := range temporaryCodes {
+		if t == c {
+			return true
+		}
+	}
+	return false
+}
+
 // ---------------------------------------------------------------- running one scenario
 
 type result struct {
@@ -591,6 +657,13 @@ func run(sc *scenario, out *bufio.Writer) {
 		WriteBackoffMin: 200 * time.Microsecond, WriteBackoffMax: time.Millisecond,
 		RequiredAcks: kafka.RequireOne, Async: sc.async,
 	}
+	// non-default options that must reach the broker unchanged: acks (One / All; None is outside C01) and the codec
+	opt := len(sc.name)*7 + sc.bs + sc.ma + int(sc.bb%11)
+	if opt%3 == 0 {
+		w.RequiredAcks = kafka.RequireAll
+	}
+	w.Compression = kafka.Compression(opt % 5)
+	f.wantAcks, f.wantAttrs = int16(w.RequiredAcks), int16(w.Compression)
 	if sc.compl {
 		w.Completion = func(msgs []kafka.Message, err error) {
 			cbmu.Lock()
@@ -1011,6 +1084,9 @@ func main() {
 	extra := 1
 	if thorough {
 		extra = 10
+	}
+	for i := 0; i < 16; i++ {
+		run(b.codes(i), out)
 	}
 	for i := 0; i < 9*extra; i++ {
 		run(b.topicMix(i), out)
